@@ -24,11 +24,11 @@ type Event struct {
 }
 
 // normHost is the reference reading of "case-insensitively and ignoring the port" (independent of the code under test):
-// lower-case, and a trailing ":<digits>" is dropped.
+// lower-case, and a trailing ":<digits>" - also with an empty port, "host:" is a legal authority - is dropped.
 func normHost(h string) string {
 	h = strings.ToLower(h)
 	if i := strings.LastIndexByte(h, ':'); i >= 0 {
-		digits := i+1 < len(h)
+		digits := true
 		for _, c := range h[i+1:] {
 			if c < '0' || c > '9' {
 				digits = false
